@@ -71,6 +71,7 @@ type Obs struct {
 	ErrMsg     S       `json:"errMsg"`
 	Values     [][]any `json:"values"`
 	IsSet      []bool  `json:"isSet"`
+	IsSetDef   []bool  `json:"isSetDef"` // Option.IsSetDefault per option
 	Pos        [][][]S `json:"pos"`
 	Retargs    []S     `json:"retargs"`
 	Chain      []int   `json:"chain"`
@@ -318,7 +319,7 @@ func outClass(got string, err error) int {
 
 // runArgparse runs one scenario against the real library.
 func runArgparse(t *Tree, sc *Scenario, argv []S) (obs *Obs) {
-	obs = &Obs{ErrNames: []S{}, ErrList: []S{}, Values: [][]any{}, Pos: [][][]S{}, Retargs: []S{}, Chain: []int{}, Events: []event{}, IsSet: []bool{}}
+	obs = &Obs{ErrNames: []S{}, ErrList: []S{}, Values: [][]any{}, Pos: [][][]S{}, Retargs: []S{}, Chain: []int{}, Events: []event{}, IsSet: []bool{}, IsSetDef: []bool{}}
 	b := buildWith(t, poptsOf(sc.POpts), true, sc.HasPrelude && sc.LateGroup)
 	if b.err != nil {
 		obs.SetupErr = b.err.Error()
@@ -533,5 +534,6 @@ func (b *Built) fillState(obs *Obs) {
 	for _, o := range b.opts {
 		fo := byField[o.field]
 		obs.IsSet = append(obs.IsSet, fo != nil && fo.IsSet())
+		obs.IsSetDef = append(obs.IsSetDef, fo != nil && fo.IsSetDefault())
 	}
 }
